@@ -530,6 +530,28 @@ ROUND4 = {
            'package; two classes of one name in two modules of a task.',
 }
 
+# fifth round
+ROUND5 = {
+    'C01': ' Part cluster: replies produced by real workers '
+           '(worker.cluster.execute).',
+    'C04': ' The journal write may fail once while a reply is handled.',
+    'C06': ' One catalogue write may fail during an update (run again); an '
+           'entry whose content another entry shares is removed and the '
+           'other one loaded.',
+    'C07': ' The move into the store may fail once (ENOSPC); payloads above '
+           'one MiB.',
+    'C08': ' The process fills another database of the same table sizes and '
+           'comes back (DBI is a process-wide singleton).',
+    'C10': ' reset also through the legacy /app endpoint.',
+    'C13': ' Client part also runs Dataset.load / update with abort() '
+           'turning true at a generated poll, and lets reopening fail once '
+           'during the copy; a raising timed call is a failure.',
+    'C15': ' Versions may be recorded through the worker path; an '
+           'implementer that overrides the version accessors.',
+    'C18': ' Bounds written with a UTC offset; completions appended between '
+           'the two questions.',
+}
+
 NOT_YET = 'check not built yet in this session (planned, see DESIGN.md section 4)'
 
 
@@ -555,7 +577,7 @@ def main():
                 'level_claimed': {
                     'category': cat,
                     'text': (text + EXTRA.get(pid, '') + ROUND3.get(pid, '')
-                             + ROUND4.get(pid, '')),
+                             + ROUND4.get(pid, '') + ROUND5.get(pid, '')),
                     'design_ref': f'DESIGN.md section 4, {pid}',
                 },
                 'level_note': note,
